@@ -138,7 +138,8 @@ struct ReaderStep {
     bool mandatory;
 };
 struct HandlerScript {
-    int policy = 0;   // 0: ERR iff a reader raised an error; 1: always OK; 2: always ERR silently; 3: push -222 then ERR
+    int policy = 0;   // 0: ERR iff a reader raised an error; 1: always OK; 2: always ERR silently; 3: push own code then ERR; 4: push own code then OK; 5: NULL callback
+    int own_code = -222;
     std::vector<ReaderStep> steps;
 };
 struct PlannedUnit {
@@ -492,9 +493,11 @@ struct PRun {
             case 1: r = SCPI_RES_OK; break;
             case 2: r = SCPI_RES_ERR; COUNT("fault_handler_fails_silently"); break;
             case 3:
-                SCPI_ErrorPush(w.ctx, -222);
+            case 4:
+                SCPI_ErrorPush(w.ctx, (int16_t) hs.own_code);
                 COUNT("fault_error_pushed_by_handler");
-                r = SCPI_RES_ERR;
+                if (hs.own_code <= -500 && hs.own_code >= -899) COUNT("probe_handler_pushes_status_event_code");
+                r = hs.policy == 3 ? SCPI_RES_ERR : SCPI_RES_OK;
                 break;
             default: r = any_error ? SCPI_RES_ERR : SCPI_RES_OK; break;
         }
@@ -522,7 +525,9 @@ void execute_c05(const Plan &plan, Verdict &v) {
     for (const Op &op : plan.ops) {
         if (op.kind == "h") {
             HandlerScript h;
-            h.policy = (int) clampl(op.arg(0), 0, 3);
+            h.policy = (int) clampl(op.arg(0), 0, 5);
+            h.own_code = (int) clampl(op.arg(1, -222), -32768, 32767);
+            if (h.own_code == 0 || h.own_code == -350 || h.own_code == -200 || h.own_code == -108) h.own_code = -222;   // codes the accounting itself uses
             run.scripts.push_back(h);
         } else if (op.kind == "rd" && !run.scripts.empty()) {
             run.scripts.back().steps.push_back(ReaderStep{(int) clampl(op.arg(0), 0, R_NREADERS - 1), op.arg(1) != 0});
@@ -618,7 +623,10 @@ void execute_c05(const Plan &plan, Verdict &v) {
         }
     }
     for (size_t i = 0; i < run.units.size(); i++) {
-        w.add_command("U" + std::to_string(i), [&run, i](World &) { return run.run_unit((int) i); });
+        if (run.scripts[(size_t) run.units[i].hid % run.scripts.size()].policy == 5)
+            w.add_null_command("U" + std::to_string(i));   // a defined header without a callback
+        else
+            w.add_command("U" + std::to_string(i), [&run, i](World &) { return run.run_unit((int) i); });
     }
     w.seal();
 
@@ -626,6 +634,30 @@ void execute_c05(const Plan &plan, Verdict &v) {
     w.observer = [&](World &ww, const char *where) {
         if (v.violated || strcmp(where, "unit-end")) return;
         UnitRec *u = ww.unit();
+        if (u && u->invocations == 0) {
+            // units of NULL-callback entries: nothing runs, surplus parameters are still accounted for
+            size_t a = 0;
+            while (a < u->text.size() && (u->text[a] == ' ' || u->text[a] == '\t')) a++;
+            if (a < u->text.size() && u->text[a] == 'U' && a + 1 < u->text.size() && isdigit((unsigned char) u->text[a + 1])) {
+                size_t idx = (size_t) strtoul(u->text.c_str() + a + 1, nullptr, 10);
+                if (idx < run.units.size() && run.units[idx].bad.empty() && run.scripts[(size_t) run.units[idx].hid % run.scripts.size()].policy == 5) {
+                    PlannedUnit &npu = run.units[idx];
+                    npu.ran = true;
+                    COUNT("probe_null_callback_unit");
+                    int n108 = 0, nother = 0;
+                    for (int e : u->errs) {
+                        if (e == -108) n108++;
+                        else if (e != 0 && e != -350) nother++;
+                    }
+                    int want108 = npu.items.empty() ? 0 : 1;
+                    if (n108 != want108 || nother)
+                        v.fail("accounting-108", fmt("null-callback have=%d want=%d other=%d", n108, want108, nother),
+                               fmt("unit \"%s\" of an entry without callback: %zu unread item(s) -> expected %d x -108 and nothing else, saw %d x -108 and %d other code(s)",
+                                   c_escape(u->text).substr(0, 80).c_str(), npu.items.size(), want108, n108, nother));
+                }
+            }
+            return;
+        }
         if (!u || u->invocations != 1 || u->tag < 0 || u->tag >= (int) run.units.size()) return;
         PlannedUnit &pu = run.units[(size_t) u->tag];
         if (!pu.bad.empty()) return;
@@ -642,7 +674,7 @@ void execute_c05(const Plan &plan, Verdict &v) {
             else if (e == -200) n200++;
             else if (e != 0 && e != -350) nother_before++;
         }
-        bool pushed_own = hs.policy == 3;
+        bool pushed_own = hs.policy == 3 || hs.policy == 4;
         bool code_in_handler = anyerr || pushed_own;
         int want200 = (ret != SCPI_RES_OK && !code_in_handler) ? 1 : 0;
         int want108 = (consumed < total && !code_in_handler && !want200) ? 1 : 0;
@@ -818,8 +850,9 @@ void generate_c05(Rng &r, const GenOpts &g, Plan &p) {
     long nh = r.range(1, 4);
     std::vector<std::vector<ReaderStep>> sigs;
     for (long h = 0; h < nh; h++) {
-        int policy = (int) (r.chance(2, 3) ? 0 : r.range(1, 3));
-        p.ops.push_back(Op("h", {policy}));
+        int policy = (int) (r.chance(2, 3) ? 0 : r.range(1, 5));
+        static const long own[] = {-222, -201, -100, -310, -400, -500, -599, -600, -700, -800, -899, -900, 1, 100, 32767, -1, -99};
+        p.ops.push_back(Op("h", {policy, own[r.below(sizeof own / sizeof own[0])]}));
         long ns = r.range(0, 4);
         std::vector<ReaderStep> sig;
         bool seen_optional = false;
@@ -901,7 +934,7 @@ const Property C05 = {
     generate_c05,
     execute_c05,
     {"probe_absent_mandatory", "probe_absent_optional", "probe_surplus_parameters", "probe_silent_handler_failure", "probe_blank_before_comma", "probe_malformed_list",
-     "probe_several_messages_in_one_call", "fault_handler_fails_silently", "fault_error_pushed_by_handler"},
+     "probe_several_messages_in_one_call", "fault_handler_fails_silently", "fault_error_pushed_by_handler", "probe_handler_pushes_status_event_code", "probe_null_callback_unit"},
     "1..3 input calls of 1..3 messages of 1..4 units; every unit pairs one of 1..4 seeded handler signatures (0..4 steps drawn from 15 readers incl. arrays, mandatory/"
     "optional, four return policies) with a list of 0..5 items whose class and value are known by construction (DEC incl. .5 forms, DEC+suffix known/unknown, #H/#Q/#B, "
     "mnemonics in/outside the bool/choice/special lists, both quote styles, blocks, expressions), blanks on either side of commas, malformed fragments on the last unit; "
